@@ -734,7 +734,9 @@ class Gen:
             s['id'] = s['id'] or None
             s['size'] = [r.choice([0, 100, 2000, 3333]), r.choice([100, 2500, 0]) if r.random() < 0.9 else 0]
             if r.random() < 0.7:
-                s['xml_metadata'] = {k: v for k, v in [('Creator', 'gen & co'), ('Created', '2020-01-02T03:04:05'),
+                # (a Creator that is all digits — a build number, a year — is read as an int by parse_page_metadata)
+                s['xml_metadata'] = {k: v for k, v in [('Creator', r.choice(['gen & co', 'gen & co', 'Transkribus', '123', '2024'])),
+                                                       ('Created', '2020-01-02T03:04:05'),
                                                        ('LastChange', '1577934245000'), ('Comments', 'c')]
                                      if r.random() < 0.7}
         else:
